@@ -9,7 +9,7 @@ from __future__ import annotations
 
 from . import net
 from .net import Dense, Block, Coef, COEF1, Unmodelled, TypeViolation, Term, Atom
-from .scenarios import scn, chain_check, strand_check, raises_check, _sit, _sub, TT, S, dx, _scaled_spec
+from .scenarios import scn, chain_check, strand_check, raises_check, _sit, _sub, TT, S, dx, _scaled_spec, compat_seqs
 from .spec import SpecIt, expr, diag_block, compare, iter_positions, as_block, Pos
 from .sym import P, ONE, ZERO
 from .torchmodel import make_tt, core_atom, rank_atom, mode_atom
@@ -159,7 +159,7 @@ for _ttm in (False, True):
             hooks=_gram_hooks(TT + "norm", "norm", lambda fr: fr.env["self"], lambda fr: fr.env["self"], "gram(x,x)"),
             args=(lambda m, q: (lambda it: (make_tt(it, "x", m), [], {"squared": VBool(q)})))(_ttm, _sq),
             check=value_check(_gram_expected("x", "x", _ttm, "gram(x,x)", () if _sq else ("abs", "sqrt")), "norm()"))
-scn(name="dot:full", func="_extras.dot", props=("C07", "C18"),
+scn(name="dot:full", func="_extras.dot", props=("C07", "C18"), compat=compat_seqs(("N_a", "N_b", "a", "b")),
     hooks=_gram_hooks("_extras.dot", "result", lambda fr: fr.env["a"], lambda fr: fr.env["b"], "gram(a,b)"),
     args=lambda it: (None, [make_tt(it, "a", False), make_tt(it, "b", False)], {}),
     check=value_check(_gram_expected("a", "b", False, "gram(a,b)"), "dot(a, b)"))
@@ -203,6 +203,7 @@ def _bilinear_expected(sit, out):
 
 
 scn(name="bilinear_form", func="_extras.bilinear_form", props=("C07", "C18"), hooks=_bilinear_hooks(),
+    compat=compat_seqs(("N_x", "M_A", "x", "A"), ("N_y", "N_A", "y", "A")),
     args=lambda it: (None, [make_tt(it, "x", False), make_tt(it, "A", True), make_tt(it, "y", False)], {}),
     check=value_check(_bilinear_expected, "bilinear_form(x, A, y)"))
 
